@@ -30,6 +30,14 @@ def _join_sub(p, r, T, s):
     return p.call(p.call(r, "join", s), "on", _eq(p, _f(p, s, "id"), _f(p, T["t1"], "id")))
 
 
+def _retry_join(p, r, T):
+    """j = r.join(t2); j.on(<criterion naming a table that is no source>) is rejected; j.on(<valid criterion>) on the same pending join."""
+    t2 = p.new("Table", "t2")
+    j = p.call(r, "join", t2)
+    p.call(j, "on", _eq(p, _f(p, t2, "id"), _f(p, p.new("Table", "nowhere"), "id")))
+    return p.call(j, "on", _eq(p, _f(p, t2, "id"), _f(p, T["t1"], "id")))
+
+
 def families(dialect):
     """family -> (primes, actions); prime(p, T) -> receiver ref; action(p, r, T) -> ref.  T = dict of table refs."""
     Q = Cls(dialect)
@@ -76,6 +84,7 @@ def families(dialect):
         ("join-unaliased-subquery-2", lambda p, r, T: _join_sub(p, r, T, sub(p, T, "t3", "id"))),
         ("join-unaliased-subquery-dangling", lambda p, r, T: p.call(r, "join", sub(p, T, "t3", "id"))),
         ("join-t2", lambda p, r, T: _join(p, r, T, "join", "t2", "t1")),
+        ("join-t2-retry-after-rejected-on", _retry_join),
         ("join-t3-on-t1", lambda p, r, T: _join(p, r, T, "join", "t3", "t1")),
         ("join-t3-on-t2", lambda p, r, T: _join(p, r, T, "join", "t3", "t2")),
         ("join-t2-using", lambda p, r, T: p.call(p.call(r, "join", p.new("Table", "t2")), "using", "id")),
